@@ -10,6 +10,8 @@ CONSTANTS
   MaxW = 0
   LookupMode = "fresh"
   MaxConns = 3
+  LookupLocks = "single"
+  MaxWrites = 0
   MaxOps = 1
   Cases <- GenCases
 INVARIANT Emit
